@@ -318,7 +318,16 @@ theorem ancFrame_of_opFrame {rank : SlabID → Nat} {w w' : World} {p : SlabID} 
     (hr : CRank rank w) (h : ∀ rank0, CRank rank0 w → OpFrame rank0 w w' p E) : AncFrame w w' p E := by
   refine ⟨fun z hz hE => ?_, (h rank hr).2.1⟩
   obtain ⟨rank', hr', hle⟩ := rank_raise hr p
-  exact (h rank' hr').1 z (fun he => hz (he ▸ Anc.refl)) (hle z hz) hE
+  exact ((h rank' hr').1 z (fun he => hz (he ▸ Anc.refl)) (hle z hz) hE).1
+
+/-- … and the closure of such a container is untouched as well (this part does not survive the
+    transport along `World.Sim`, so it is stated for `WorldOk` only) -/
+theorem hinfoFrame_of_opFrame {rank : SlabID → Nat} {w w' : World} {p : SlabID} {E : SlabID → Prop}
+    (hr : CRank rank w) (h : ∀ rank0, CRank rank0 w → OpFrame rank0 w w' p E) :
+    ∀ z, ¬ Anc w z p → ¬ E z → AList.find? w'.hinfo z = AList.find? w.hinfo z := by
+  intro z hz hE
+  obtain ⟨rank', hr', hle⟩ := rank_raise hr p
+  exact ((h rank' hr').1 z (fun he => hz (he ▸ Anc.refl)) (hle z hz) hE).2
 
 end World
 end Atree
